@@ -1,7 +1,10 @@
 #!/bin/sh
-# usage: tools/try_seed.sh <seeded dir> <Cxx> [more Cyy ...]   — applies seeded/<id>/patch.diff to /repo, runs the quick checks, reverts
+# usage: tools/try_seed.sh <seeded dir> <Cxx> [more Cyy ...]  — applies patch.diff to /repo, runs the quick checks under SEEDS, reverts
 set -u
 d=$1; shift
 git -C /repo apply "$d/patch.diff" || { echo "patch does not apply"; exit 2; }
-for p in "$@"; do ./check "$p" --tier quick | tail -3; echo "exit=$? for $p"; done
+for p in "$@"; do for s in ${SEEDS:-0}; do
+  out=$(VERIF_SEED=$s ./check "$p" --tier ${TIER:-quick} 2>&1); rc=$?
+  echo "rc=$rc seed=$s $(echo "$out" | grep -c '^VIOLATION') violation line(s): $(echo "$out" | tail -1)"
+done; done
 git -C /repo checkout -- . ; git -C /repo status --short | head -3
